@@ -304,7 +304,155 @@ def sweeps(tier, rng):
             except Exception as e:
                 bad = None
             yield ((corpus.rel(p), "ttc"), bad)
-    return [Sweep("hash-seeds", run_hashseed), Sweep("second-save", run_second_save)]
+
+    # ---------------------------------------------------------------- edit histories
+    def _post3(data):
+        """the same font without glyph names (post format 3): names are synthesised from cmap on load"""
+        f = TTFont(io.BytesIO(data), recalcTimestamp=False)
+        if "glyf" not in f or "post" not in f: return None
+        f["post"].formatType = 3.0
+        b = io.BytesIO(); f.save(b); return b.getvalue()
+    EDITS = ("cmap", "name", "OS/2", "hmtx")
+    def _edit(f, what, tbl):
+        """a small edit expressed through glyph INDICES, so that it means the same whatever the glyph names are; it is applied to
+        the table object `tbl` the caller got from its FIRST f[what] (a user holds on to that object)"""
+        if what == "cmap":
+            t = tbl; done = False
+            for st in t.tables:
+                if st.isUnicode() and st.cmap:
+                    cp = min(st.cmap); st.cmap[0xE123] = st.cmap[cp]; done = True
+            return done
+        if what == "name":
+            tbl.setName("Edited by history", 5, 3, 1, 0x409); return True
+        if what == "OS/2":
+            if "OS/2" not in f: return False
+            tbl.usWeightClass = 555; return True
+        if what == "hmtx":
+            g = f.getGlyphName(min(1, len(f.getGlyphOrder()) - 1)); a, l = tbl[g]; tbl[g] = (a + 7, l); return True
+    def run_edit_history():
+        k = 6 if tier == "quick" else 20 if tier == "search" else 80
+        srcs = []
+        for p_ in corpus.pick(rng, [q for q in bins if q.endswith(".ttf")], k):
+            d = open(p_, "rb").read(); srcs.append((corpus.rel(p_), d))
+            try:
+                d3 = _post3(d)
+                if d3: srcs.append((corpus.rel(p_) + "#post3", d3))
+            except Exception: pass
+        from lib import genfonts
+        for label, gdata in genfonts.all_generated()[:6]:
+            try:
+                d3 = _post3(gdata)
+                if d3: srcs.append((label + "#post3", d3))
+            except Exception: pass
+        for label, data in srcs:
+            try: tags0 = list(TTFont(io.BytesIO(data), lazy=True).reader.keys())
+            except Exception: continue
+            for what in EDITS:
+                outs = {}
+                # histories: the edited table is the first thing touched / the glyph order first / some other tables first / a save first
+                others = [t for t in rng.sample(tags0, min(3, len(tags0))) if t != what]
+                def touch(f, t, objs):
+                    o = f[t]; objs.setdefault(t, o)
+                    if t == "cmap": [st.cmap for st in o.tables]
+                # every history touches the SAME set of tables; only the order (and an intermediate save) differs
+                for hist in ("edited-first", "glyphorder-first", "others-first", "save-first"):
+                    for lazy in (None, True) if tier == "quick" else (None, True, False):
+                        try:
+                            f = TTFont(io.BytesIO(data), lazy=lazy, recalcTimestamp=False)
+                            if hist == "edited-first": seq = [what] + others
+                            elif hist == "glyphorder-first": f.getGlyphOrder(); seq = others + [what]
+                            elif hist == "others-first": seq = others[::-1] + [what]
+                            else: seq = [what] + others
+                            objs = {}
+                            for t in seq: touch(f, t, objs)
+                            if hist == "save-first": f.save(io.BytesIO())
+                            if what not in objs or not _edit(f, what, objs[what]): continue
+                            b = io.BytesIO(); f.save(b); outs[(hist, lazy)] = b.getvalue()
+                        except Exception as e:
+                            outs[(hist, lazy)] = "raised %r" % (e,)
+                bad = None
+                vals = list(outs.values())
+                if vals and any(isinstance(v, str) for v in vals) and not all(isinstance(v, str) for v in vals):
+                    bad = "edit %s: some histories raise, others do not: %r" % (what, {k_: (v if isinstance(v, str) else "ok") for k_, v in outs.items()})
+                elif vals and not isinstance(vals[0], str) and len(set(vals)) > 1:
+                    ref = vals[0]; r1 = TTFont(io.BytesIO(ref), lazy=True)
+                    diffs = {}
+                    for k_, v in outs.items():
+                        if v != ref:
+                            r2 = TTFont(io.BytesIO(v), lazy=True)
+                            diffs[str(k_)] = [t for t in r1.reader.keys() if t not in r2.reader or r1.reader[t] != r2.reader[t]]
+                    bad = "the same edit of %s gives different bytes depending on the history before it (vs %r): %r" % (what, list(outs)[0], diffs)
+                elif vals and not isinstance(vals[0], str) and what == "cmap":
+                    g = TTFont(io.BytesIO(vals[0]))
+                    if 0xE123 not in (g.getBestCmap() or {}) and not any(0xE123 in st.cmap for st in g["cmap"].tables if st.isUnicode()):
+                        bad = "the cmap edit is missing from the saved font in every history"
+                yield ((label, "edit-history", what), bad)
+    # ---------------------------------------------------------------- documented high-level forms of the layout object model
+    def run_api_history():
+        from fontTools.fontBuilder import FontBuilder
+        from fontTools.pens.ttGlyphPen import TTGlyphPen
+        from fontTools.ttLib import newTable
+        from fontTools.ttLib.tables import otTables as ot
+        from fontTools.otlLib.builder import buildLookup
+        import copy
+        base = ["f", "i", "l", "t", "a", "b"]
+        def make(r):
+            ligs = {}; comps = {}
+            for _ in range(r.randint(2, 6)):
+                c = tuple(r.choice(base) for _ in range(r.randint(2, 4)))
+                if c not in comps: comps[c] = "_".join(c)
+            glyphs = [".notdef"] + base + [g + ".alt" for g in base] + [g + ".alt2" for g in base] + sorted(set(comps.values())) + ["x_y_z"]
+            fb = FontBuilder(1000, isTTF=True); fb.setupGlyphOrder(glyphs); fb.setupCharacterMap({ord(c): c for c in base})
+            fb.setupGlyf({g: TTGlyphPen(None).glyph() for g in glyphs}); fb.setupHorizontalMetrics({g: (500, 0) for g in glyphs})
+            fb.setupHorizontalHeader(ascent=800, descent=-200); fb.setupNameTable({"familyName": "Api16", "styleName": "R"}); fb.setupOS2(); fb.setupPost()
+            font = fb.font; font.recalcTimestamp = False
+            sts = []
+            st = ot.LigatureSubst(); st.ligatures = dict(comps); sts.append(("ligatures", st))
+            st = ot.SingleSubst(); st.mapping = {g: g + ".alt" for g in r.sample(base, r.randint(1, 4))}; sts.append(("mapping", st))
+            st = ot.MultipleSubst(); st.mapping = {g: [g, g + ".alt2"] for g in r.sample(base, r.randint(1, 3))}; sts.append(("mapping", st))
+            st = ot.AlternateSubst(); st.alternates = {g: [g + ".alt", g + ".alt2"] for g in r.sample(base, r.randint(1, 3))}; sts.append(("alternates", st))
+            gsub = ot.GSUB(); gsub.Version = 0x00010000
+            gsub.LookupList = ot.LookupList(); gsub.LookupList.Lookup = [buildLookup([st_]) for _, st_ in sts]
+            frec = ot.FeatureRecord(); frec.FeatureTag = "liga"; frec.Feature = ot.Feature(); frec.Feature.FeatureParams = None
+            frec.Feature.LookupListIndex = list(range(len(sts)))
+            gsub.FeatureList = ot.FeatureList(); gsub.FeatureList.FeatureRecord = [frec]
+            srec = ot.ScriptRecord(); srec.ScriptTag = "DFLT"; srec.Script = ot.Script(); srec.Script.DefaultLangSys = ot.LangSys()
+            srec.Script.DefaultLangSys.LookupOrder = None; srec.Script.DefaultLangSys.ReqFeatureIndex = 0xFFFF
+            srec.Script.DefaultLangSys.FeatureIndex = [0]; srec.Script.LangSysRecord = []
+            gsub.ScriptList = ot.ScriptList(); gsub.ScriptList.ScriptRecord = [srec]
+            font["GSUB"] = newTable("GSUB"); font["GSUB"].table = gsub
+            return font, sts
+        def edit(sts):
+            for attr, st in sts:
+                d = getattr(st, attr)
+                if isinstance(st, ot.LigatureSubst): d[("t", "a", "b", "l", "e")[:3]] = "x_y_z"
+                elif isinstance(st, ot.SingleSubst): d["t"] = "a.alt2"
+                elif isinstance(st, ot.MultipleSubst): d["t"] = ["t", "b.alt"]
+                else: d["t"] = ["t.alt2", "t.alt"]
+        m = 12 if tier == "quick" else 40 if tier == "search" else 300
+        for i in range(m):
+            sub = rng.fork("api", i) if hasattr(rng, "fork") else rng
+            seed = rng.below(1 << 30)
+            from lib.prng import Rng
+            bad = None
+            try:
+                fa, sa = make(Rng(seed, "api")); before = [copy.deepcopy(getattr(st, attr)) for attr, st in sa]
+                b1 = io.BytesIO(); fa.save(b1)
+                after = [getattr(st, attr) for attr, st in sa]
+                for (attr, st), x, y in zip(sa, before, after):
+                    if x != y or list(x) != list(y):
+                        bad = "a save changed %s.%s in memory: %r -> %r" % (type(st).__name__, attr, x, {k_: (v if not hasattr(v, "__dict__") else type(v).__name__) for k_, v in list(y.items())[:4]}); break
+                if bad is None:
+                    b1b = io.BytesIO(); fa.save(b1b)
+                    if b1b.getvalue() != b1.getvalue(): bad = "second save differs"
+                if bad is None:
+                    edit(sa); b2 = io.BytesIO(); fa.save(b2)
+                    fb_, sb = make(Rng(seed, "api")); edit(sb); b3 = io.BytesIO(); fb_.save(b3)
+                    if b2.getvalue() != b3.getvalue(): bad = "save, edit, save gives different bytes than edit, save"
+            except Exception as e:
+                bad = "history raised %r" % (e,)
+            yield (("api-history", seed), bad)
+    return [Sweep("hash-seeds", run_hashseed), Sweep("second-save", run_second_save), Sweep("edit-history", run_edit_history), Sweep("api-history", run_api_history)]
 
 def classify(sweep, case, failure):
     s = str(failure)
